@@ -395,7 +395,8 @@ def loop_budget(owner: FuncInfo, loop: ast.While) -> List[str]:
     (count-down: the parameter itself is decremented; count-up: a local is compared with it); else the names the condition tests."""
     tests = [loop.test] + [n.test for n in ast.walk(loop) if isinstance(n, (ast.If, ast.IfExp, ast.While))]
     compared = {x.id for t in tests for x in ast.walk(t) if isinstance(x, ast.Name)}
-    params = [p for p in owner.params if p in compared]
+    recv = owner.params[0] if owner.params and owner.kind in ("method", "classmethod", "property", "setter") else None
+    params = [p for p in owner.params if p in compared and p != recv]          # (`self.x` in a test does not make the receiver a budget)
     if len(params) == 1:
         return params
     updated = {n.target.id for n in ast.walk(loop) if isinstance(n, ast.AugAssign) and isinstance(n.target, ast.Name)}
